@@ -193,6 +193,10 @@ void* BatchPageAllocator::allocate() noexcept {
   if (local.next_page < local.buffer.end()) {
     return *local.next_page++;
   }
+  // a slot built by the default constructor (set_batch_size never called) has no buffer yet
+  if (ABSL_PREDICT_FALSE(local.buffer.size() != _batch_size)) {
+    local.buffer.resize(_batch_size);
+  }
   _upstream->allocate(local.buffer.data(), _batch_size);
   local.next_page = local.buffer.begin() + 1;
   return *local.buffer.data();
